@@ -797,16 +797,6 @@ pub fn au_input(rng: &mut Rng, in_cap: usize) -> Vec<u64> {
             _ => off = 24 + rng.range(0, 3) as u32,
         }
     }
-    let mut b: Vec<u8> = vec![];
-    b.extend(magic.to_be_bytes());
-    b.extend(off.to_be_bytes());
-    b.extend((rng.next() as u32).to_be_bytes());
-    b.extend(enc.to_be_bytes());
-    b.extend(rate.to_be_bytes());
-    b.extend(chans.to_be_bytes());
-    while b.len() < off as usize {
-        b.push(rng.below(256) as u8);
-    }
     let body = match rng.below(5) {
         0 => rng.range(0, 5),
         1 => rng.range(0, 200),
@@ -814,6 +804,25 @@ pub fn au_input(rng: &mut Rng, in_cap: usize) -> Vec<u64> {
         3 => rng.range(0, 3 * in_cap),
         _ => rng.range(0, 700),
     };
+    // the data-size field is not used by the decoder (the stream decides): unknown, random, exact, odd, too small
+    let size_field = match rng.below(6) {
+        0 => 0xffff_ffffu32,
+        1 => rng.next() as u32,
+        2 => body as u32,
+        3 => *rng.pick(&[0u32, 1, 2, 3, 5, 7, 9]),
+        4 => (body as u32).saturating_sub(1 + rng.below(4) as u32),
+        _ => body as u32 + 1 + rng.below(3) as u32,
+    };
+    let mut b: Vec<u8> = vec![];
+    b.extend(magic.to_be_bytes());
+    b.extend(off.to_be_bytes());
+    b.extend(size_field.to_be_bytes());
+    b.extend(enc.to_be_bytes());
+    b.extend(rate.to_be_bytes());
+    b.extend(chans.to_be_bytes());
+    while b.len() < off as usize {
+        b.push(rng.below(256) as u8);
+    }
     for _ in 0..body {
         b.push(rng.below(256) as u8);
     }
@@ -844,6 +853,20 @@ fn il2p_input(rng: &mut Rng) -> Option<(Vec<u64>, Vec<(usize, u64, u64)>)> {
         data.push(rng.below(2) as u64);
     }
     tags.sort_by_key(|t| t.0);
+    // the input may end anywhere: right after a sync word, with the last bit of the 120-bit header, inside the payload
+    if rng.chance(1, 2) {
+        let last_sync = tags.iter().rev().find(|t| t.0 + at < data.len() + at).map(|t| t.0).unwrap_or(0);
+        let cut = match rng.below(4) {
+            0 => last_sync + 1 + 120,
+            1 => last_sync + 1 + rng.range(0, 120),
+            2 => last_sync + 1,
+            _ => last_sync + 1 + 120 + rng.range(0, 300),
+        };
+        if cut < data.len() {
+            data.truncate(cut);
+            tags.retain(|t| t.0 < cut);
+        }
+    }
     Some((data, tags))
 }
 
@@ -862,7 +885,13 @@ pub fn selfcheck(name: &str, rng: &mut Rng, steps: usize, heavy_tags: bool) -> V
     let acts_a = gen_schedule_opt(rng, nin, nout, &lens, out_cap.min(4096), steps, false);
     let acts_b = greedy_schedule(nin, nout, &lens);
     let req = request(&built_a.name, &built_a.params, &built_a.rig, &ins, &acts_a);
+    // the adversarial run keeps feeding in pieces until the input is used up (half of the cases)
+    let total_in: usize = lens.iter().copied().max().unwrap_or(0);
+    let piece = if rng.chance(1, 2) { *rng.pick(&[1usize, 2, 5, 17, 64, 121, 257]) } else { 1_000_000 };
+    let piece = if total_in / piece.max(1) > 6000 { 64 } else { piece };
+    FLUSH_PIECE.store(piece, std::sync::atomic::Ordering::SeqCst);
     let a = run_case_full(built_a.rig, &ins, &acts_a, true);
+    FLUSH_PIECE.store(1_000_000, std::sync::atomic::Ordering::SeqCst);
     let b = run_case_full(built_b.rig, &ins, &acts_b, true);
     let mut out = Vec::new();
     let short = req.split(" ; S").next().unwrap_or("").to_string();
